@@ -5,6 +5,7 @@ mod c08;
 mod c09;
 mod c10;
 mod c11;
+mod c13e;
 mod c16;
 mod c18;
 mod common;
@@ -42,6 +43,7 @@ fn main() {
         "c08" => c08::run(&args, &mut rep),
         "c09" => c09::run(&args, &mut rep),
         "c10" => c10::run(&args, &mut rep),
+        "c13e" => c13e::run(&args, &mut rep),
         "c11" => c11::run(&args, &mut rep),
         "c18" => {
             let mut rng = gen::rng(args.seed, args.shard, 18);
